@@ -172,3 +172,25 @@ func ForgeData(d DataParams, head []byte, want [4]byte, rnd func() uint64) (last
 	}
 	return last, false
 }
+
+// DataMIC is the LoRaWAN data-frame MIC of msg = MHDR | FHDR | FPort | FRMPayload exactly as given (the octets as
+// transmitted), written from LoRaWAN 1.1 section 4.4 / 1.0.x section 4.4 with this package's own CMAC.
+func DataMIC(d DataParams, msg []byte) (mic [4]byte) {
+	c16 := uint16(0)
+	if d.ACK && d.V11 {
+		c16 = uint16(d.Conf)
+	}
+	switch {
+	case !d.Uplink:
+		t := New(d.SKey).CMAC(append(d.block([5]byte{0x49, byte(c16), byte(c16 >> 8)}, 1, len(msg)), msg...))
+		copy(mic[:], t[:4])
+	case !d.V11:
+		t := New(d.FKey).CMAC(append(d.block([5]byte{0x49}, 0, len(msg)), msg...))
+		copy(mic[:], t[:4])
+	default:
+		ts := New(d.SKey).CMAC(append(d.block([5]byte{0x49, byte(c16), byte(c16 >> 8), d.TxDR, d.TxCh}, 0, len(msg)), msg...))
+		tf := New(d.FKey).CMAC(append(d.block([5]byte{0x49}, 0, len(msg)), msg...))
+		mic[0], mic[1], mic[2], mic[3] = ts[0], ts[1], tf[0], tf[1]
+	}
+	return
+}
